@@ -394,9 +394,13 @@ def _run_base(ctx):
                 return env['M'] if isinstance(e.ops[0], (ast.Eq, ast.Is)) else not env['M']
         if isinstance(e, ast.Call) and len(e.args) >= 1 and dotted(e.args[0]) == p:
             names = {t[1] for t in cg.resolve(e.func, ig) if t[0] == 'ext'} | {dotted(e.func) or ''}
-            if names & {'os.path.exists', 'os.path.lexists'}:
+            if names & {'os.path.exists', 'os.path.lexists', 'os.path.isfile', 'os.path.isdir'}:
                 if env['N']:
                     raise AnalysisError('is_gitref: os.path.exists is reached with candidate None (raises TypeError)')
+                if names & {'os.path.isfile'}:
+                    return env['E'] and not env['D']
+                if names & {'os.path.isdir'}:
+                    return env['E'] and env['D']
                 return env['E']
             if any(t == ('func', GF + ':is_valid_gitref') for t in cg.resolve(e.func, ig)):
                 return env['V']
@@ -425,14 +429,16 @@ def _run_base(ctx):
     _FALL = object()
     wrong = {'file': [], 'null': [], 'ref': []}
     n_rows = 0
-    for N, E, M, V in _it.product((False, True), repeat=4):
+    for N, E, M, V, D in _it.product((False, True), repeat=5):
         if N and (E or M):
             continue        # None is neither an existing path nor the null-file marker
-        got = _run(ig.body, {'N': N, 'E': E, 'M': M, 'V': V})
+        if D and not E:
+            continue        # D: what exists is a directory (nbdiff takes directory names as path filters)
+        got = _run(ig.body, {'N': N, 'E': E, 'M': M, 'V': V, 'D': D})
         n_rows += 1
         want_ = (N or not E) and not M and V
         if got is _FALL or got is None or bool(got) != want_:
-            row = 'N=%d E=%d M=%d V=%d -> %s' % (N, E, M, V, 'falls off' if got is _FALL else got)
+            row = 'N=%d E=%d dir=%d M=%d V=%d -> %s' % (N, E, D, M, V, 'falls off' if got is _FALL else got)
             wrong['file' if E and not want_ else 'null' if M else 'ref'].append(row)
     for key, what in (('file', 'not an existing file'), ('null', 'not the null file'), ('ref', 'valid git ref')):
         ok = not wrong[key]
